@@ -8,9 +8,12 @@ correspondence driver runs (`Driver/C07.lean`), with the `fix:` patches D18 / NC
 
 * a key column is `(cast, data)`; `keyRows n cols` are the frame's key tuples, one per row;
 * `.ok` results mean: no out-of-bounds access in any modelled kernel, no ValueError from a guard;
-* `Faithful keys` — every column's stacking cast preserves `<` — is the one hypothesis that is NOT always true of the code:
-  it holds when all key columns have one dtype (`same_dtype_faithful`), and fails for int64 beyond 2^53 stacked with a
-  float column and for integers stacked with strings (finding D20, `Witness/C07.lean`).  The theorems that need it carry
+* `Faithful keys` — every column's stacking cast preserves `<` on the values that occur in that column — is the one
+  hypothesis that is NOT always true of the code: it holds when all key columns have one dtype (`same_dtype_faithful`)
+  and for mixed dtypes as long as the promotion is exact on the data (e.g. int64 below 2^53 with a float column), and
+  fails for int64 beyond 2^53 stacked with a float column and for integers stacked with strings whose decimal text
+  order differs from their numeric order (finding D20, `Witness/C07.lean`).  It is exactly the negation of the D20
+  matcher of the harness, so every input not assigned to D20 is covered by a theorem.  The theorems that need it carry
   `_partial` in their name; next to them the statement for single-dtype keys is proved without any such hypothesis.
 -/
 namespace Exetera.Props.C07
@@ -26,7 +29,11 @@ def cols (keys : List KeyCol) : List (List Int) := keys.map (·.data)
 def SameDtype (keys : List KeyCol) : Prop := ∀ k ∈ keys, k.cast = id
 
 theorem same_dtype_faithful {keys : List KeyCol} (h : SameDtype keys) : Faithful keys := by
-  intro k hk a b hab; rw [h k hk]; exact hab
+  intro k hk a _ b _ hab; rw [h k hk]; exact hab
+
+-- a mixed int64 / float64 key below 2^53 is faithful: the `_partial` theorems apply to it
+example : Faithful [⟨castF64, [3, 1, 2, 1]⟩, ⟨id, [0, 0, 1, 1]⟩] := by
+  unfold Faithful CastFaithfulOn; decide
 
 private theorem frame_cases {keys : List KeyCol} {n : Nat} (h : Frame keys n) :
     ∃ k0 ks, keys = k0 :: ks ∧ Rect n ((k0 :: ks).map (·.data)) := by
